@@ -1,14 +1,14 @@
 SPECIFICATION Spec
 CONSTANTS
-  ShapeSet <- ShapesCont
+  ShapeSet <- ShapesCrash2
   SeqOutcomes <- OkPerm
   ChkOutcomes <- OkPerm
-  MaxCrashes = 0
-  MaxRuns = 2
-  Tolerated <- NoTol
+  MaxCrashes = 2
+  MaxRuns = 1
+  Tolerated <- KnownRecoveryAny
   FnOut = FALSE
   Poller = FALSE
-  Aging = FALSE
+  Aging = TRUE
   Gen = "off"
 INVARIANTS NoClauseViolated InvQuiescentAtRelease InvDurLagsMem
 CHECK_DEADLOCK TRUE
